@@ -170,3 +170,44 @@ pub fn stub_fmt_write(_output: &mut dyn core::fmt::Write, _args: core::fmt::Argu
 pub fn stub_ioerr_fmt(_e: &std::io::Error, _f: &mut core::fmt::Formatter<'_>) -> core::fmt::Result {
     Ok(())
 }
+
+
+/// Reference reading of a BER identifier + definite length (X.690 8.1.2, 8.1.3): returns (header octets, declared
+/// length) or None when the header itself is truncated or has more than 16 length octets.
+pub fn spec_header(b: &[u8]) -> Option<(usize, u128)> {
+    if b.len() < 2 {
+        return None;
+    }
+    let mut i = 1;
+    if b[0] & 0x1f == 0x1f {
+        loop {
+            if i >= b.len() {
+                return None;
+            }
+            let c = b[i];
+            i += 1;
+            if c & 0x80 == 0 {
+                break;
+            }
+        }
+    }
+    if i >= b.len() {
+        return None;
+    }
+    let l = b[i];
+    i += 1;
+    if l & 0x80 == 0 {
+        return Some((i, l as u128));
+    }
+    let k = (l & 0x7f) as usize;
+    if k > 16 || i + k > b.len() {
+        return None;
+    }
+    let mut v: u128 = 0;
+    let mut j = 0;
+    while j < k {
+        v = (v << 8) | b[i + j] as u128;
+        j += 1;
+    }
+    Some((i + k, v))
+}
